@@ -104,6 +104,8 @@ def configs(tier):
     out.append(dict(modes=("rise", "level", "fall"), order=[2, 0, 1]))
     out.append(dict(modes=("rise", "fall"), order=[1, 0], repeat=True, trigger="rise"))
     out.append(dict(modes=("level", "fall", "rise"), order=[1, 2, 0], repeat=True, trigger="fall"))
+    out.append(dict(modes=("rise", "level"), elab_twice=True))
+    out.append(dict(modes=("fall", "rise", "level"), order=[1, 2, 0], elab_twice=True))
     if tier == "thorough":
         for modes in itertools.product(MODES, repeat=4):
             out.append(dict(modes=modes, order=[3, 1, 0, 2]))
